@@ -10,6 +10,7 @@ Operations (lists, so that cases shrink and replay as plain JSON):
   ['expire_spi', side, spihex, hard]      kernel EXPIRE for an arbitrary SPI
   ['rekey_ike', side, sa_k] ['del_ike', side, sa_k] ['dpd', side, sa_k]     timer triggers (deadline moved, sweep run)
   ['deliver', i] ['drop', i] ['dup', i]   act on in-flight datagram i (mod number in flight)
+  ['deliver_pair', x, y, i]               deliver the i-th in-flight datagram travelling between endpoints x and y
   ['old', k]                              deliver again the k-th datagram ever sent (stale replay of authentic traffic)
   ['tick', dt]                            advance the virtual clock by dt seconds and run every endpoint's sweep
   ['status', side]                        local status query through the control socket
@@ -20,6 +21,7 @@ Operations (lists, so that cases shrink and replay as plain JSON):
   ['xfrm_raw', side, hex]                 raw bytes on the XFRM socket
   ['auto', seconds, dt, policy]           run by itself: ticks of dt, everything delivered FIFO; policy 'none' | 'blackhole' |
                                           'tempfail_ike_rekey' (every IKE_SA rekey response is replaced by TEMPORARY_FAILURE)
+  ['corrupt', i, pos, bit]                copy of in-flight datagram i with one bit flipped (the original stays in flight)
   ['hdr', i, kind, k]                     copy of in-flight datagram i with its header SPIs / flags rewritten (unauthentic)
   ['rewrite', i, kind, arg]               keyed man-in-the-middle / differently-behaving peer: in-flight protected datagram i
                                           is decrypted with the reference keys, its payload list edited (EDITS below),
@@ -167,6 +169,13 @@ class Sim:
                 w.inflight.remove(d)
                 return
             self.deliver(d, keep=(k == 'dup'), op=op)
+        elif k == 'deliver_pair':
+            x, y = self.eps[op[1]], self.eps[op[2]]
+            cand = [d for d in w.inflight if (d.src in x.addrs and d.dst in y.addrs) or (d.src in y.addrs and d.dst in x.addrs)]
+            if not cand:
+                self.count('noop')
+                return
+            self.deliver(cand[op[3] % len(cand)] if len(op) > 3 else cand[0], op=op)
         elif k == 'old':
             if not w.sent_log:
                 return
@@ -295,6 +304,18 @@ class Sim:
                         w.inflight.remove(d)
                     else:
                         self.deliver(d, op=op)
+        elif k == 'corrupt':
+            if not w.inflight:
+                self.count('noop')
+                return
+            d = w.inflight[op[1] % len(w.inflight)]
+            ep = w.by_addr.get(d.dst)
+            if ep is None or not ep.up or not d.data:
+                return
+            data = bytearray(d.data)
+            data[op[2] % len(data)] ^= 1 << (op[3] % 8)
+            nd = WD.Dgram(-4, d.src, d.dst, bytes(data), w.clock.t, 'adversary')
+            self.event('corrupt', ep, lambda: ep.step(dgram=(nd.dst, nd.src, nd.data)), dgram=nd, op=op)
         elif k == 'hdr':
             if not w.inflight:
                 self.count('noop')
@@ -493,6 +514,10 @@ class NoEscape(Monitor):
     def post(self, sim, ev):
         for ep in sim.eps.values():
             for e in ep.escapes:
+                if e[0] == 'LineBudget':
+                    sim.fail('loop-iteration-exceeds-line-budget', f'one iteration of main_loop at endpoint {ep.name} did not '
+                                                                   f'finish within its executed-line budget: {e[1]} (during {ev.kind})')
+                    continue
                 sim.fail(f'escape:{e[0]}@{e[2]}:{e[3]}',
                          f'{e[0]}({e[1]}) escaped main_loop at endpoint {ep.name} ({e[2]}:{e[3]}) during {ev.kind}')
             ep.escapes = []
